@@ -3,10 +3,13 @@ package props
 import (
 	"encoding/json"
 	"fmt"
+	"os"
+	"path/filepath"
 	"strings"
 	"testing"
 	"time"
 
+	"github.com/jmeaster30/vore/libvore"
 	"github.com/jmeaster30/vore/libvore/engine"
 	"pgregory.net/rapid"
 )
@@ -17,6 +20,22 @@ type RunCase struct {
 	Text  string `json:"text"`
 	ASCII bool   `json:"ascii"`
 	Limit int64  `json:"limit,omitempty"` // VM step limit (0 = the check's default)
+	File  bool   `json:"file,omitempty"`  // the text is searched as a file (RunFiles, mode NOTHING)
+}
+
+// runTextOrFile runs v on the text, in memory or (asFile) from a scratch file.
+func runTextOrFile(v *libvore.Vore, text string, asFile bool, limit int64) RunResult {
+	if !asFile {
+		return RunSafe(v, text, limit)
+	}
+	dir, err := os.MkdirTemp(scratchDir(), "c03f-")
+	if err != nil {
+		panic(err)
+	}
+	defer os.RemoveAll(dir)
+	path := filepath.Join(dir, "input.txt")
+	os.WriteFile(path, []byte(text), 0o644)
+	return RunFilesSafe(v, []string{path}, engine.NOTHING, limit)
 }
 
 const vmLimitInvariant = 30_000
@@ -89,7 +108,7 @@ func checkInvariantCase(c RunCase) (sig, what string, discard bool, ms engine.Ma
 	if c.Limit > 0 {
 		limit = c.Limit
 	}
-	res := RunSafe(v, c.Text, limit)
+	res := runTextOrFile(v, c.Text, c.File, limit)
 	if res.OverBudget {
 		return "", "", true, nil
 	}
@@ -121,6 +140,11 @@ func genWideProgram(t *rapid.T, multiline bool) (src string, text string, featur
 	features = map[string]bool{}
 	f := AllModelFeatures
 	f.Wide = true
+	if rapid.IntRange(0, 2).Draw(t, "capbias") == 0 {
+		// captures under alternation, in loops, in (nested) named loops
+		f.CapBias, f.NamedLoops = true, true
+		features["capture_biased"] = true
+	}
 	depth := rapid.IntRange(1, 3).Draw(t, "depth")
 	globals, body := GenBodyProgram(t, f, depth)
 	if rapid.IntRange(0, 5).Draw(t, "addregex") == 0 {
